@@ -56,7 +56,15 @@ def candidate_ops(tier):
                 if sel == "period" and (op[0] == "del" or op[5] == "raw"):
                     bounds["process"] = 1
             else:
-                bounds = {"thread": 2, "process": 2 if sel == "period" else 1}
+                # thorough: every selection with both worker types at one
+                # preemption; two preemptions (about 1e5 schedules per
+                # operation) for the raw move of two files into one new
+                # directory and for the delete
+                deep = sel == "period" and (
+                    op[0] == "del" or op[2:] == ("DOY", "period", False,
+                                                 "raw"))
+                bounds = {"thread": 2 if deep else 1,
+                          "process": 2 if deep else 1}
             for wtype, b in bounds.items():
                 out.append((alphabet, op, wtype, b, "full"))
     # two files of the same base name in different directories: whatever a
@@ -68,17 +76,17 @@ def candidate_ops(tier):
                ("mv", "A", "DOY", "all", True, "raw"),
                ("del", "A", "all", False)):
         for wtype in ("thread", "process"):
-            out.append(("layout", op, wtype, 1 if q else 2, "twins"))
+            out.append(("layout", op, wtype, 1, "twins"))
     for op in (("mv", "A", "J", "all", False, "conv"),
                ("mv", "A", "J", "all", True, "call")):
-        out.append(("forms", op, "thread", 1 if q else 2, "twins"))
+        out.append(("forms", op, "thread", 1, "twins"))
     return out
 
 
 def shards(tier, seed):
     out = []
     for alphabet, op, wtype, bound, root in candidate_ops(tier):
-        nparts = 1 if bound <= 1 else 16
+        nparts = 1 if bound <= 1 else 48
         for part in range(nparts):
             out.append(("threads", tier, alphabet, op, wtype, bound, part,
                         nparts, root))
